@@ -26,7 +26,7 @@ SPEC = dict(
         ref="DESIGN.md §6 C07"),
     imports="From Ship Require Import Base Eebus.",
     case_type="bytes", check_fn="check_c07_enc",
-    drivers=[dict(bin="jsondrv", args=["-prop", "C07"], n_quick=3000, n_thorough=90000)],
+    drivers=[dict(bin="jsondrv", args=["-prop", "C07"], n_quick=3000, n_thorough=30000)],
     codes={10: "wire_shape_wrong",
            11: "roundtrip_lost_empty_array",
            12: "roundtrip_corrupted_string_containing_pattern",
